@@ -124,13 +124,19 @@ def disp2eig(ctx, rng, evec_disp2eig):
         s = 10.0 ** rng.uniform(-9.0, 6.0, 3 * N)          # arbitrary norm: fifteen decades
         D = s[:, None] * U / numpy.sqrt(m3)[None, :]
         ctx.count({"disp": N, "complex": cplx, "t": t})
-        try:
-            E = numpy.asarray(evec_disp2eig(D.copy(), list(mass)))
-        except Exception as ex:
-            ctx.violation(f"evec_disp2eig raised {ex!r} for N={N}", {"N": N}, {"clause": "disp_raises"})
-            continue
-        if E.shape != U.shape or not numpy.allclose(E, U, atol=1e-10) or not numpy.allclose(E @ E.conj().T, numpy.eye(3 * N), atol=1e-10):
-            ctx.violation(f"evec_disp2eig does not restore the unit-norm mass-weighted eigenvectors for N={N} (complex={cplx})", {"N": N}, {"clause": "disp_value"})
+        # the same array object is converted twice (complex128 / float64 as numpy produces them): the conversion is a function of its
+        # arguments, so both answers are the eigenvectors
+        Darg = D.astype(complex) if (cplx or t % 4 == 0) else D.copy()
+        for attempt in (1, 2):
+            try:
+                E = numpy.asarray(evec_disp2eig(Darg, list(mass)))
+            except Exception as ex:
+                ctx.violation(f"evec_disp2eig raised {ex!r} for N={N} (call {attempt} on the same array)", {"N": N}, {"clause": "disp_raises"})
+                break
+            if E.shape != U.shape or not numpy.allclose(E, U, atol=1e-10) or not numpy.allclose(E @ E.conj().T, numpy.eye(3 * N), atol=1e-10):
+                ctx.violation(f"evec_disp2eig does not restore the unit-norm mass-weighted eigenvectors for N={N} (complex={cplx}, call {attempt} on the same "
+                              f"{Darg.dtype} array)", {"N": N, "attempt": attempt}, {"clause": "disp_value"})
+                break
     # M x 3N matrices with any number M of vectors are valid input (each row comes back with unit norm) ...
     for M, N in ((1, 2), (5, 3), (13, 4), (7, 1)):
         mass = rng.uniform(1.0, 240.0, N)
